@@ -35,13 +35,13 @@ def run(tier, seed, replay=None):
     ck.mc(DIR, "PackAlgs", "MC_fit4.cfg")
     ck.mc(DIR, "PackAlgs", "NC_knap.cfg", expect_violation="KnapFinal")
     if tier == "thorough":
-        ck.mc(DIR, "PackAlgs", "MC_knap4.cfg", timeout=3000)
-        ck.mc(DIR, "PackAlgs", "MC_fit5.cfg", timeout=3000)
+        ck.mc(DIR, "PackAlgs", "MC_knap4.cfg", timeout=14400)
+        ck.mc(DIR, "PackAlgs", "MC_fit5.cfg", timeout=14400)
     nq = 500 if tier == "quick" else 8000
     kc = [drv.gen_knap(rng) for _ in range(nq)]
     bc = [drv.gen_bins(rng) for _ in range(nq)]
     trs = _fix(run_tasks("pack", "run_knap", kc, timeout=30), kc, "knap") + _fix(run_tasks("pack", "run_bins", bc, timeout=30), bc, "bins")
-    vs = ck.validate(DIR, "PackTrace", trs, "solve_knapsack (max/min) and solve_bin_pack (4 heuristics)", timeout=3000)
+    vs = ck.validate(DIR, "PackTrace", trs, "solve_knapsack (max/min) and solve_bin_pack (4 heuristics)", timeout=14400)
     ck.classify(trs, vs, nontrivial=lambda t, v: len(t["values"]) + len(t["sizes"]) >= 2)
     for t in trs:
         for e in t["events"]:
